@@ -9,4 +9,9 @@ require (
 	github.com/hashicorp/terraform-svchost v0.0.1
 )
 
+require (
+	golang.org/x/net v0.17.0 // indirect
+	golang.org/x/text v0.13.0 // indirect
+)
+
 replace github.com/hashicorp/go-slug => /repo
